@@ -662,6 +662,11 @@ pub open spec fn cfg_wl_grows<'a>(a: CfgSt<'a>, b: CfgSt<'a>) -> bool {
 /// "the builder only grew from a to b" (reflexive, transitive): nodes and edges are extended at the end, registered pairs and
 /// call targets keep their node pairs, registered return addresses stay (lists are extended at the end), and cfg_wl_grows
 pub open spec fn cfg_gstep<'a>(a: CfgSt<'a>, b: CfgSt<'a>) -> bool {
+    cfg_gstep0(a, b) && cfg_wl_grows(a, b)
+}
+
+/// ... without the worklist clause (holds across the rounds of the worklist loop, which take entries off the worklist)
+pub open spec fn cfg_gstep0<'a>(a: CfgSt<'a>, b: CfgSt<'a>) -> bool {
     &&& a.nodes.len() <= b.nodes.len()
     &&& forall |i: int| 0 <= i < a.nodes.len() ==> #[trigger] b.nodes[i] == a.nodes[i]
     &&& a.edges.len() <= b.edges.len()
@@ -670,7 +675,6 @@ pub open spec fn cfg_gstep<'a>(a: CfgSt<'a>, b: CfgSt<'a>) -> bool {
     &&& b.ct == a.ct
     &&& forall |t: Tid| #[trigger] a.ra.contains_key(t) ==> b.ra.contains_key(t) && a.ra[t].len() <= b.ra[t].len()
             && forall |i: int| 0 <= i < a.ra[t].len() ==> #[trigger] b.ra[t][i] == a.ra[t][i]
-    &&& cfg_wl_grows(a, b)
 }
 
 /// worklist accounting: every BlkEnd node is EITHER waiting on the worklist OR among the processed nodes `done`, exactly once
@@ -696,4 +700,53 @@ pub open spec fn cfg_positions_unique(subs: Map<Tid, Term<Sub>>) -> bool {
         #[trigger] cfg_block_at(subs, k1, i1, subs[k1].term.blocks@[i1]) && #[trigger] cfg_block_at(subs, k2, i2, subs[k2].term.blocks@[i2])
         && subs[k1].term.blocks@[i1].tid == subs[k2].term.blocks@[i2].tid && subs[k1].tid == subs[k2].tid
         ==> k1 == k2 && i1 == i2
+}
+
+/// representation invariant + pairs invariant
+pub open spec fn cfg_ginv<'a>(st: CfgSt<'a>, subs: Map<Tid, Term<Sub>>) -> bool {
+    cfg_inv(st, subs) && cfg_pairs_inv(st)
+}
+
+/// petgraph's index type: the number of nodes fits u32 (true of every petgraph graph: axiom_cg_digraph_bounds)
+pub open spec fn cfg_small<'a>(st: CfgSt<'a>) -> bool { st.nodes.len() <= u32::MAX }
+
+/// position (function number j of the order ks, block number i) lies before (m, n) in the order add_program_blocks visits them
+pub open spec fn cfg_pos_before(subs: Map<Tid, Term<Sub>>, ks: Seq<Tid>, j: int, i: int, m: int, n: int) -> bool {
+    0 <= j < ks.len() && 0 <= i < subs[ks[j]].term.blocks@.len() && (j < m || (j == m && i < n))
+}
+
+/// every registered key is the key of a position visited before (m, n)
+pub open spec fn cfg_keys_visited(jt: Map<(Tid, Tid), (NodeIndex, NodeIndex)>, subs: Map<Tid, Term<Sub>>, ks: Seq<Tid>, m: int, n: int) -> bool {
+    forall |key: (Tid, Tid)| #[trigger] jt.contains_key(key) ==>
+        exists |j: int, i: int| #[trigger] cfg_pos_before(subs, ks, j, i, m, n) && key == (subs[ks[j]].term.blocks@[i].tid, subs[ks[j]].tid)
+}
+
+/// THE GLOBAL STATEMENT (stage 3) about the final state `st` of a construction `cfg_build_steps(ks, s2, n, st, ..)`:
+pub open spec fn cfg_global<'a>(st: CfgSt<'a>, subs: Map<Tid, Term<Sub>>, ext: Set<Tid>, ks: Seq<Tid>, s2: CfgSt<'a>, n: int) -> bool {
+    let s3 = cfg_wl_steps(s2, subs, ext, n);
+    let done = cfg_done_n(s2, subs, ext, n);
+    // (a) one start node, one end node, one Block edge per registered pair; registered pairs <-> keys; representation invariant
+    &&& cfg_ginv(st, subs)
+    // (b) every (block, function it is listed in) of the program is registered, with exactly this block and this function
+    &&& forall |k: Tid, i: int| #[trigger] cfg_block_at(subs, k, i, subs[k].term.blocks@[i]) ==> cfg_registered(st, subs[k].term.blocks@[i], subs[k])
+    // (c) every BlkEnd node of the final graph was processed by exactly one round of the worklist loop ...
+    &&& forall |x: int| 0 <= x < st.nodes.len() && (#[trigger] st.nodes[x]) is BlkEnd ==> exists |j: int| 0 <= j < n && (#[trigger] done[j]).i == x
+    &&& forall |j1: int, j2: int| 0 <= j1 < j2 < n ==> #[trigger] done[j1] != #[trigger] done[j2]
+    &&& forall |j: int| 0 <= j < n ==> (#[trigger] done[j]).i < st.nodes.len() && st.nodes[done[j].i as int] is BlkEnd
+    // ... and what a round added (cfg_wl_step = cfg_outgoing for that node and its block: the per-jump clauses of the property)
+    //     is still there at the end: nodes, edges, registered pairs, call targets, return addresses of every intermediate state
+    //     are those of the final state (so "the BlkStart node of (target, function)" named by a round is THE node of that pair)
+    &&& forall |j: int| 0 <= j <= n ==> cfg_gstep0(#[trigger] cfg_wl_steps(s2, subs, ext, j), st)
+    // (d) during all rounds the call targets are: exactly the tids of the functions with a first block, each mapped to the
+    //     node pair of (first block, function)   ("call to an internal function" <==> the target is such a tid)
+    &&& st.ct == s2.ct
+    &&& forall |t: Tid| #[trigger] st.ct.contains_key(t) <==> cfg_callable(subs, t)
+    &&& forall |k: Tid| #[trigger] subs.contains_key(k) && subs[k].term.blocks@.len() > 0 ==>
+            st.ct[subs[k].tid] == st.jt[(subs[k].term.blocks@[0].tid, subs[k].tid)]
+    // (e) the return linkage is added last, from the return addresses registered by the rounds; it adds no block nodes
+    &&& st == cfg_return_edges(s3) && st.ra == s3.ra && st.jt == s3.jt && st.wl.len() == 0
+}
+
+pub open spec fn cfg_global_post<'a>(st: CfgSt<'a>, subs: Map<Tid, Term<Sub>>, ext: Set<Tid>) -> bool {
+    exists |ks: Seq<Tid>, s2: CfgSt<'a>, n: int| #[trigger] cfg_build_steps(ks, s2, n, st, subs, ext) && cfg_global(st, subs, ext, ks, s2, n)
 }
